@@ -22,7 +22,7 @@ ASSUMPTIONS = ["GP algorithms use a stub posterior in place of the trained GP in
 N = {"quick": 170, "thorough": 6000}
 REQUIRE = {"quick": {"runs": 150, "steps_checked": 1500, "completions": 100, "post_completion_steps": 300, "sampling_steps": 1000,
                      "batch_gt_active_runs": 15, "cost_steps": 100, "budget_terminations": 3, "Kgtm_runs": 10,
-                     "variants_run": 11, "vogp_ad_runs": 10}}
+                     "variants_run": 11, "vogp_ad_runs": 10, "interleaved_pairs": 10}}
 TIMEOUT = {"quick": 1500, "thorough": 7200}
 ALL = ["PaVeBa", "PaVeBaGP-IH", "PaVeBaGP-DE", "PartialGP-rect", "PartialGP-ell", "VOGP", "EpsilonPAL", "Auer", "Auer-emp",
        "NaiveElimination", "DecoupledGP"]
@@ -118,8 +118,30 @@ def ad_run(mon, rng):
     runchecks.check_accounting(mon, tr)
 
 
+def interleaved_pair(mon, rng):
+    """two objects of the same class alive at once and stepped alternately: each must account for its own samples only"""
+    variant = str(rng.choice(["VOGP", "PaVeBaGP-IH", "PartialGP-rect", "EpsilonPAL", "Auer", "PaVeBa", "PaVeBaGP-DE"]))
+    a, oa = make(rng, variant)
+    b, ob = make(rng, variant)
+    a["max_rounds"] = b["max_rounds"] = 40
+    try:
+        trs = runs.run_pair(a, oa, b, ob, mon, max_steps=40)
+    except Exception as e:
+        mon.violation(f"crash:ctor:{type(e).__name__}:{variant}", f"{variant}: building two instances raised {e!r}", runs.case_public(a))
+        return
+    mon.count("interleaved_pairs")
+    for tr in trs:
+        mon.count("runs")
+        runchecks.check_accounting(mon, tr)
+        for st in tr.steps:
+            if st["crash"] is None:
+                runchecks.check_discard(mon, tr, st)
+
+
 def shard(mon, tier, rng, shard_no, nshards):
     n = max(11, N[tier] // nshards)
+    for _ in range(1 if tier == "quick" else 8):
+        interleaved_pair(mon, rng)
     seen = set()
     if shard_no == 0:
         directed(mon)
